@@ -36,6 +36,10 @@ ASSUMPTIONS = [
     'only the robot writes with the robot account',
     'two renderings of robot messages are equal exactly when class and rendered arguments are equal (message '
     'identity of the model); validated by the comment comparison of the histories only',
+    'closed-loop phase (harness/convsys.py): the identity of message TEXTS beyond the class (rendered arguments) and the '
+    'answers of git\'s content merges are read back from the real run; everything else of the 4 consecutive evaluations '
+    'is predicted by the model from ONE serialisation of host and repository; commands reset / force_reset and the '
+    'QueueCollection.validate() guards are outside Model/Conv.lean (such repetitions stop being compared, counted)',
 ]
 TRUSTED = [
     'Lean 4 kernel; axioms of every theorem audited (subset of propext, Classical.choice, Quot.sound)',
@@ -43,6 +47,8 @@ TRUSTED = [
     'and Model/Flow.lean; tied to the code by the exhaustive stub enumeration and by replaying every real '
     'notification and command pass of the histories on the model',
     'harness/tables/commands.py (AST walk of commands.py: which message classes each registered command handler can raise)',
+    'hand-written closed loop lean/BertE/Model/Conv.lean (Eval.evalPr + Flow.step + the host updates Bert-E makes: '
+    'de-duplicated comments, integration pull requests, the host rule MERGED) tied by harness/convsys.py',
     'harness/c10.py + c10_instr.py (wrappers around _send_comment, handle_comments, Reactor.handle_commands and the '
     'command handlers; a restarted server is emulated in-process: new BertE object + option defaults of the Reactor '
     'registry restored to their import-time values), harness/system.py, harness/histories.py (mock host, real git)',
@@ -614,6 +620,9 @@ def correspondence(ctx):
     with Pool(common.NCPU) as pool:
         outs = pool.map(_work, jobs, chunksize=1)
     collect(res, outs)
+    # C. the closed loop of one pull request's evaluation (Model/Conv.lean) predicts 4 consecutive real evaluations
+    from . import convsys
+    convsys.phase(ctx, res)
     return res
 
 
@@ -649,6 +658,9 @@ def collect(res, outs):
 
 
 def replay(ctx, payload):
+    from . import convsys
+    if convsys.is_mine(payload):
+        return convsys.replay(ctx, payload)
     f = payload['failure'] if 'failure' in payload else payload
     inp = f['input']
     res = Result()
